@@ -1,0 +1,44 @@
+package main
+
+import (
+	j "github.com/dave/jennifer/jen"
+)
+
+// embedParentsExist returns the condition "all embedded parents are there": obj.A != nil && obj.B != nil
+// (an inner parent is promoted through the outer ones, which are tested first)
+func (f *Field) embedParentsExist() *j.Statement {
+	s := j.Null()
+	for i, p := range f.OptionalEmbedParents {
+		if i > 0 {
+			s = s.Op("&&")
+		}
+		s = s.Id("obj." + p.FieldName).Op("!=").Nil()
+	}
+	return s
+}
+
+// embedParentsMissing returns the condition "an embedded parent is nil": obj.A == nil || obj.B == nil
+func (f *Field) embedParentsMissing() *j.Statement {
+	s := j.Null()
+	for i, p := range f.OptionalEmbedParents {
+		if i > 0 {
+			s = s.Op("||")
+		}
+		s = s.Id("obj." + p.FieldName).Op("==").Nil()
+	}
+	return s
+}
+
+// embedParentsAllocate returns the statements which allocate the embedded parents that are nil, outermost first
+func (f *Field) embedParentsAllocate() *j.Statement {
+	s := j.Null()
+	for i, p := range f.OptionalEmbedParents {
+		if i > 0 {
+			s = s.Line()
+		}
+		s = s.If(j.Id("obj." + p.FieldName).Op("==").Nil()).Block(
+			j.Id("obj." + p.FieldName).Op("=").Id("&" + p.FullType + "{}"),
+		)
+	}
+	return s
+}
